@@ -390,7 +390,7 @@ fn exhaustive_strings(rep: &Report, maxlen: usize) {
     let mut jobs: Vec<(usize, u64, u64)> = Vec::new(); // (len, first idx, count)
     for len in 0..=maxlen {
         let total = 3u64.pow(len as u32);
-        let step = 2000u64;
+        let step = 300u64;
         let mut a = 0;
         while a < total {
             jobs.push((len, a, step.min(total - a)));
@@ -640,11 +640,11 @@ fn self_test(rep: &Report) {
 pub fn run(tier: Tier, seed: u64) -> i32 {
     let rep = Report::new("C09", "exploration", tier, seed);
     self_test(&rep);
-    exhaustive_strings(&rep, tier.pick(7, 9));
+    exhaustive_strings(&rep, tier.pick(8, 10));
     all_splits(&rep, seed, tier.pick(300, 3000), 8);
     all_splits(&rep, seed ^ 0x77, tier.pick(60, 400), 10);
-    random_streams(&rep, seed, tier.pick(4000, 60_000), tier.pick(400, 600), tier.pick(3 << 20, 5 << 20));
-    f5_class(&rep, seed, tier.pick(4000, 60_000));
+    random_streams(&rep, seed, tier.pick(16_000, 300_000), tier.pick(200, 300), tier.pick(3 << 20, 5 << 20));
+    f5_class(&rep, seed, tier.pick(40_000, 1_000_000));
     if tier == Tier::Thorough {
         crate::miri::run_slices(&rep, "chunker", 16, 60, "");
     }
